@@ -74,7 +74,7 @@ Definition limits_spec (a : arith) (m : lmem) : option lval :=
       | Lmax_exponent => Some (LI (emax f)) | Lmax_exponent10 => Some (LI (flt_max_exp10 f))
       | Lhas_infinity | Lhas_quiet_NaN | Lhas_signaling_NaN => Some (LB true)
       | Lhas_denorm => Some (LI 1) | Lhas_denorm_loss => Some (LB false)
-      | Linfinity => Some LInf | Lquiet_NaN => Some LNaN | Lsignaling_NaN => Some LNaN
+      | Linfinity => Some LInf | Lquiet_NaN => Some (LNaN false) | Lsignaling_NaN => Some (LNaN true)
       | Ldenorm_min => Some (flt_denorm_min f)
       | Lis_iec559 => Some (LB true) | Lis_bounded => Some (LB true) | Lis_modulo => Some (LB false)
       | Ltraps => None
